@@ -10,6 +10,7 @@ import (
 
 	"verifharness/internal/core"
 	"verifharness/internal/props"
+	"verifharness/internal/ref"
 )
 
 var (
@@ -17,6 +18,8 @@ var (
 	kfSet  *core.KFSet
 	kfErr  error
 )
+
+func init() { ref.ProbeDialect() }
 
 func judge(t *testing.T, prop string, f func(cs *core.Case)) {
 	kfOnce.Do(func() { kfSet, kfErr = core.LoadKF("/verif/KNOWN_FINDINGS.txt") })
